@@ -2,6 +2,8 @@
    schwifty/bban.py.  National algorithms and the bank index are parameters (Model/National.v,
    Model/Lookup.v). *)
 From Schwifty Require Import Lib.Base Lib.Lit Lib.Regex Model.Clean Model.Data.
+(* the structure-string reader is shared with the specification (Spec/Iso13616.v: parse_structure) *)
+From Schwifty Require Import Spec.Iso13616.
 From Coq Require Import String.
 
 (* a registered checksum algorithm object *)
@@ -86,8 +88,36 @@ Fixpoint set_assoc (k : text) (v : text) (l : list (text * text)) : list (text *
   | (k', v') :: r => if text_eqb k k' then (k', v) :: r else (k', v') :: set_assoc k v r
   end.
 
+Definition nonempty_text (t : text) : bool := match t with [] => false | _ => true end.
+
 Definition get_val (k : text) (l : list (text * text)) : text :=
   match assoc k l with Some v => v | None => [] end.
+
+(* bban._matches_structure(spec, range_, value): every character of the value is of the class the
+   structure string gives to its position (zip truncates to the shorter of range and value) *)
+Definition class_chars (k : kind) : text :=
+  match k with
+  | Kn => tx "0123456789"
+  | Ka => tx "ABCDEFGHIJKLMNOPQRSTUVWXYZ"
+  | Kc => tx "0123456789ABCDEFGHIJKLMNOPQRSTUVWXYZ"
+  | Ke => tx " "
+  end.
+Fixpoint all_in_class (ks : list kind) (v : text) : bool :=
+  match ks, v with
+  | k :: ks', c :: v' => mem c (class_chars k) && all_in_class ks' v'
+  | _, _ => true
+  end.
+Definition py_slice_list {A} (l : list A) (a b : Z) : list A :=
+  let n := Z.of_nat (List.length l) in
+  let a' := norm_idx n a in let b' := norm_idx n b in
+  firstn (Z.to_nat (b' - a')) (skipn (Z.to_nat a') l).
+Definition matches_structure (r : row) (p : Z * Z) (v : text) : outcome bool :=
+  match parse_structure (r_bban_spec r) with
+  | Some items =>
+    let classes := flat_map (fun it => repeat (it_kind it) (N.to_nat (it_count it))) items in
+    Ok (all_in_class (py_slice_list classes (fst p) (snd p)) v)
+  | None => Crash PAssertionError       (* structure strings the reader does not understand: not modelled *)
+  end.
 
 (* BBAN.from_components(country_code, **values) *)
 Definition from_components (cc : text) (values : list (text * text)) : outcome text :=
@@ -101,8 +131,11 @@ Definition from_components (cc : text) (values : list (text * text)) : outcome t
     let bank_len := range_length (rng k_bank) in
     let branch_len := range_length (rng k_branch) in
     let account_len := range_length (rng k_account) in
+    let split := negb (Z.eqb branch_len 0) && Z.eqb (len (get_val k_bank comps0)) (bank_len + branch_len) in
+    if split && nonempty_text (get_val k_branch values) then Err EInvalidBranchCode      (* given twice *)
+    else
     let comps1 :=
-      if Z.eqb (len (get_val k_bank comps0)) (bank_len + branch_len) then
+      if split then
         let bc := get_val k_bank comps0 in
         set_assoc k_bank (py_slice_to bc bank_len)
           (set_assoc k_branch (py_slice bc bank_len (bank_len + branch_len)) comps0)
@@ -111,6 +144,12 @@ Definition from_components (cc : text) (values : list (text * text)) : outcome t
     else if Z.ltb branch_len (len (get_val k_branch comps1)) then Err EInvalidBranchCode
     else if Z.ltb account_len (len (get_val k_account comps1)) then Err EInvalidAccountCode
     else
+      do m1 <- matches_structure r (rng k_bank) (get_val k_bank comps1);
+      if negb m1 then Err EInvalidBankCode else
+      do m2 <- matches_structure r (rng k_branch) (get_val k_branch comps1);
+      if negb m2 then Err EInvalidBranchCode else
+      do m3 <- matches_structure r (rng k_account) (get_val k_account comps1);
+      if negb m3 then Err EInvalidAccountCode else
       do checksum <- compute_national cc comps1;
       let comps2 := match checksum with [] => comps1 | _ => set_assoc k_national checksum comps1 end in
       let bban0 := zeros (Z.to_nat (r_bban_length r)) in
